@@ -27,6 +27,9 @@ type errwrapCase struct {
 	RetErr  string   `json:"reterr"`
 	Log     []string `json:"log"`
 	Calls   int      `json:"calls"`
+	Lay     string   `json:"lay"`
+	FLine   int      `json:"fline"`
+	delta   int      // source line of the wrapped expression's first line, relative to the reference wrap of the case
 }
 
 const errwrapPrelude = `package main
@@ -36,9 +39,12 @@ import (
 	"fmt"
 	"strconv"
 	"strings"
+
+	qerrors "github.com/qiniu/x/errors"
 )
 
 var (
+	_base   int
 	errBoom = errors.New("boom")
 	_log    []string
 	_seen   []string
@@ -110,8 +116,34 @@ func note(a ...any) {
 		_seen = append(_seen, sh(x))
 	}
 }
+func refFail() error { return errBoom }
+
+// baseLine runs f (a one-line wrap that fails) and returns the line its frame names: the reference line of a case
+func baseLine(f func()) (l int) {
+	defer func() {
+		var fr *qerrors.Frame
+		if err, ok := recover().(error); ok && errors.As(err, &fr) {
+			l = fr.Line
+		}
+	}()
+	f()
+	return
+}
+func squash(s string) string {
+	return strings.Map(func(r rune) rune {
+		if r == ' ' || r == '\t' || r == '\n' {
+			return -1
+		}
+		return r
+	}, s)
+}
 func errInfo(err error, frame string) string {
-	return fmt.Sprintf("is=%v frame=%v", errors.Is(err, errBoom), strings.Contains(err.Error(), frame))
+	line := "none"
+	var fr *qerrors.Frame
+	if errors.As(err, &fr) {
+		line = strconv.Itoa(fr.Line - _base)
+	}
+	return fmt.Sprintf("is=%v frame=%v line=%s", errors.Is(err, errBoom), strings.Contains(squash(err.Error()), squash(frame)), line)
 }
 func report(err error, frame string, rs ...any) {
 	var s []string
@@ -137,6 +169,30 @@ func finish() {
 }
 `
 
+// the overloaded functions of the "lambda" position: the first candidate accepts the lambda literal but not the
+// second argument, so the second candidate is chosen after the lambda body has been compiled once already
+const errwrapPreludeXGo = `
+func run1_(fn func(x int), s string)                { fn(1) }
+func run2_(fn func(x string), i int)                { fn("a") }
+func try1_(fn func(x int) error, s string) error    { return fn(1) }
+func try2_(fn func(x string) error, i int) error    { return fn("a") }
+
+func run = (
+	run1_
+	run2_
+)
+
+func try = (
+	try1_
+	try2_
+)
+`
+
+const errwrapPreludeGo = `
+func run(fn func(x string), i int)             { fn("a") }
+func try(fn func(x string) error, i int) error { return fn("a") }
+`
+
 var rtGo = map[string][2]string{ // type, non-zero value
 	"int": {"int", "1"}, "string": {"string", `"r"`}, "ptr": {"*T", "&T{}"}, "slice": {"[]int", "[]int{1}"}, "struct": {"P", "P{1}"},
 }
@@ -157,23 +213,56 @@ func (c *errwrapCase) callee() string {
 	if c.Pos == "method" {
 		recv = "t."
 	}
-	if c.CF == "ident" {
+	switch {
+	case c.CF == "ident":
 		return recv + "h" + strconv.Itoa(c.NV)
+	case c.CF == "cmd":
+		return recv + "g" + strconv.Itoa(c.NV) + " fail" // how the frame prints (g1 fail)!
+	case c.Lay == "multi":
+		return recv + "g" + strconv.Itoa(c.NV) + "(fail,)" // compared modulo white space
 	}
 	return recv + "g" + strconv.Itoa(c.NV) + "(fail)"
 }
 
-func (c *errwrapCase) wrap() string {
-	w := c.callee() + c.Op
+// wrap is the wrapped expression with its operator as written; ind = indentation of the statement
+func (c *errwrapCase) wrap(ind string) string {
+	op := c.Op
 	if c.Op == "?:" {
-		w = c.callee() + "?:d()"
+		op = "?:d()"
 	}
-	return w
+	g := "g" + strconv.Itoa(c.NV)
+	if c.Pos == "method" {
+		g = "t." + g
+	}
+	switch {
+	case c.CF == "ident":
+		return c.callee() + op
+	case c.CF == "cmd":
+		return g + op + " fail" // command style with arguments: the operator follows the callee
+	case c.Lay == "multi":
+		return g + "(\n" + ind + "\tfail,\n" + ind + ")" + op
+	}
+	return g + "(fail)" + op
+}
+
+// needle finds the first line of the wrapped expression in the rendered unit
+func (c *errwrapCase) needle() string {
+	g := strconv.Itoa(c.NV)
+	switch c.CF {
+	case "ident":
+		return "h" + g + c.Op[:1]
+	case "cmd":
+		return "g" + g + c.Op[:1] + " fail"
+	}
+	return "g" + g + "("
 }
 
 func (c *errwrapCase) useStmts(ind string) string {
-	w := c.wrap()
+	w := c.wrap(ind)
 	pos := c.Pos
+	if pos == "lambda" {
+		pos = "stmt"
+	}
 	if pos == "closure" || pos == "method" {
 		pos = "assign"
 		if c.NV == 0 {
@@ -202,13 +291,19 @@ func (c *errwrapCase) useStmts(ind string) string {
 // panic / return zero values + error / substitute the default, then use the values.
 func (c *errwrapCase) useStmtsGo(ind string) string {
 	call := c.callee()
-	if c.CF == "ident" {
+	switch {
+	case c.CF == "ident":
 		call += "()"
+	case c.CF == "cmd" || c.Lay == "multi":
+		call = "g" + strconv.Itoa(c.NV) + "(fail)"
+		if c.Pos == "method" {
+			call = "t." + call
+		}
 	}
 	vars := []string{"_v1", "_v2"}[:c.NV]
 	var b strings.Builder
 	b.WriteString(ind + strings.Join(append(append([]string{}, vars...), "_err"), ", ") + " := " + call + "\n")
-	wrapped := "fmt.Errorf(\"" + c.callee() + ": %w\", _err)"
+	wrapped := fmt.Sprintf("qerrors.NewFrame(_err, %s, \"main.xgo\", _base+(%d), \"main.enc\")", strconv.Quote(c.callee()), c.delta)
 	b.WriteString(ind + "if _err != nil {\n")
 	switch c.Op {
 	case "!":
@@ -224,6 +319,9 @@ func (c *errwrapCase) useStmtsGo(ind string) string {
 	}
 	b.WriteString(ind + "}\n")
 	pos := c.Pos
+	if pos == "lambda" {
+		pos = "stmt"
+	}
 	if pos == "closure" || pos == "method" {
 		pos = "assign"
 		if c.NV == 0 {
@@ -242,12 +340,26 @@ func (c *errwrapCase) useStmtsGo(ind string) string {
 }
 
 func (c *errwrapCase) render(idx int) unit {
-	x := c.renderWith(idx, c.useStmts)
-	g := c.renderWith(idx, c.useStmtsGo)
+	x := c.renderWith(idx, c.useStmts, false)
+	// where does the wrapped expression start, relative to the one-line reference wrap of the case?
+	ref, first := -1, -1
+	for i, l := range strings.Split(x, "\n") {
+		if first < 0 && strings.Contains(l, c.needle()) {
+			first = i
+		}
+		if strings.Contains(l, "refFail()!") {
+			ref = i
+		}
+	}
+	if ref < 0 || first < 0 {
+		fatal("errwrap: cannot locate the wrapped expression of case %d:\n%s", idx, x)
+	}
+	c.delta = first - ref
+	g := c.renderWith(idx, c.useStmtsGo, true)
 	return unit{Idx: idx, XGo: x, Go: g}
 }
 
-func (c *errwrapCase) renderWith(idx int, use func(string) string) string {
+func (c *errwrapCase) renderWith(idx int, use func(string) string, isGo bool) string {
 	id := strconv.Itoa(idx)
 	types := c.encTypes()
 	var b strings.Builder
@@ -285,7 +397,26 @@ func (c *errwrapCase) renderWith(idx int, use func(string) string) string {
 	for i := range types {
 		rnames = append(rnames, fmt.Sprintf("v%d", i+1))
 	}
-	if c.Pos == "closure" {
+	if c.Pos == "lambda" {
+		open, res := "x => {", ""
+		if c.Op == "?" {
+			res = " error"
+		}
+		if isGo {
+			open = "func(x string)" + res + " {"
+		}
+		fmt.Fprintf(&b, "func enc_%s(fail bool) {\n", id)
+		switch {
+		case c.Op == "?":
+			b.WriteString("\terr := try(" + open + "\n" + use("\t\t") + "\t\treturn nil\n\t}, 1)\n")
+			fmt.Fprintf(&b, "\tlogf(\"outer\")\n\treport(err, %s)\n", frame)
+		case isGo:
+			b.WriteString("\trun(" + open + "\n" + use("\t\t") + "\t}, 1)\n\tlogf(\"outer\")\n")
+		default: // command style call of the overloaded function itself
+			b.WriteString("\trun " + open + "\n" + use("\t\t") + "\t}, 1\n\tlogf(\"outer\")\n")
+		}
+		b.WriteString("}\n")
+	} else if c.Pos == "closure" {
 		fmt.Fprintf(&b, "func enc_%s(fail bool) {\n", id)
 		fmt.Fprintf(&b, "\tf := func()%s {\n", resultList)
 		b.WriteString(use("\t\t"))
@@ -314,8 +445,12 @@ func (c *errwrapCase) renderWith(idx int, use func(string) string) string {
 	if c.Pos == "method" {
 		call = "T{}." + call
 	}
-	fmt.Fprintf(&b, "func %s() {\n\tbegin(%v)\n\tfunc() {\n\t\tdefer func() {\n\t\t\tif e := recover(); e != nil {\n\t\t\t\treportPanic(e, %s)\n\t\t\t}\n\t\t}()\n", caseFn(idx), c.Fail, frame)
-	if c.Op == "?" && c.Pos != "closure" {
+	base := "\t_base = baseLine(func() { refFail()! })\n"
+	if isGo {
+		base = "\t_base = 0\n"
+	}
+	fmt.Fprintf(&b, "func %s() {\n\tbegin(%v)\n"+base+"\tfunc() {\n\t\tdefer func() {\n\t\t\tif e := recover(); e != nil {\n\t\t\t\treportPanic(e, %s)\n\t\t\t}\n\t\t}()\n", caseFn(idx), c.Fail, frame)
+	if c.Op == "?" && c.Pos != "closure" && c.Pos != "lambda" {
 		fmt.Fprintf(&b, "\t\t%s := %s\n", strings.Join(append(append([]string{}, rnames...), "err"), ", "), call)
 		fmt.Fprintf(&b, "\t\treport(%s)\n", strings.Join(append([]string{"err", frame}, rnames...), ", "))
 	} else {
@@ -329,7 +464,8 @@ func (c *errwrapCase) renderWith(idx int, use func(string) string) string {
 }
 
 func (c *errwrapCase) text() string {
-	s := fmt.Sprintf("%s at %s (callee returns %d value(s)+error, error=%v)", c.wrap(), c.Pos, c.NV, c.Fail)
+	w := strings.NewReplacer("\n", "⏎", "\t", "").Replace(c.wrap(""))
+	s := fmt.Sprintf("%s at %s (callee returns %d value(s)+error, error=%v)", w, c.Pos, c.NV, c.Fail)
 	if c.Op == "?" {
 		named := ""
 		if c.Named {
@@ -346,9 +482,9 @@ func (c *errwrapCase) expected() (out, seen, log string) {
 	case "normal":
 		out += " rets=" + strings.Join(c.Rets, " ")
 	case "reterr":
-		out += " rets=" + strings.Join(c.Rets, " ") + " is=true frame=true"
+		out += " rets=" + strings.Join(c.Rets, " ") + fmt.Sprintf(" is=true frame=true line=%d", c.delta+c.FLine)
 	case "panic":
-		out += " is=true frame=true"
+		out += fmt.Sprintf(" is=true frame=true line=%d", c.delta+c.FLine)
 	}
 	return out, "seen " + strings.Join(c.Seen, " "), "log " + strings.Join(c.Log, ",")
 }
@@ -400,6 +536,8 @@ func (c *errwrapCase) classify(lines []string) string {
 			return "error-identity-lost"
 		case strings.Contains(lines[0], "frame=false"):
 			return "frame-does-not-name-expression"
+		case lineField(lines[0]) != lineField(eo):
+			return "frame-names-wrong-line"
 		case c.Outcome == "reterr":
 			return "other-results-not-zero"
 		}
@@ -420,13 +558,27 @@ func (c *errwrapCase) classify(lines []string) string {
 	return ""
 }
 
+// lineField / noFrameFields: the frame part of an `out` line
+func lineField(s string) string {
+	if i := strings.Index(s, " line="); i >= 0 {
+		return s[i:]
+	}
+	return ""
+}
+func noFrameFields(s string) string {
+	if i := strings.Index(s, " frame="); i >= 0 {
+		return s[:i]
+	}
+	return s
+}
+
 func runErrWrap() {
 	cases := hlib.ReadAllCases[errwrapCase]()
 	units := make([]unit, len(cases))
 	for i := range cases {
 		units[i] = cases[i].render(i)
 	}
-	b := newBatcher(batchConfig{Name: "errwrap", Prelude: errwrapPrelude, PerProgram: 150, Workers: 8})
+	b := newBatcher(batchConfig{Name: "errwrap", Prelude: errwrapPrelude + errwrapPreludeXGo, GoPrelude: errwrapPrelude + errwrapPreludeGo, PerProgram: 150, Workers: 8})
 	defer b.close()
 	xres, gres := b.run(units)
 	compared, agree := 0, 0
@@ -443,7 +595,7 @@ func runErrWrap() {
 			agree++
 		}
 		res := hlib.Result{Idx: i, V: "ok", Input: c.text()}
-		res.NT = fmt.Sprintf("%s/%s/%s/nv%d/fail=%v/enc%d/%s/%v", c.Op, c.Pos, c.CF, c.NV, c.Fail, c.Enc, c.RT, c.Named)
+		res.NT = fmt.Sprintf("%s/%s/%s/%s/nv%d/fail=%v/enc%d/%s/%v", c.Op, c.Pos, c.CF, c.Lay, c.NV, c.Fail, c.Enc, c.RT, c.Named)
 		x := xres[i]
 		compared++
 		sigBase := "errwrap-" + map[string]string{"!": "!", "?": "?", "?:": "?:default"}[c.Op] + ":"
@@ -456,9 +608,14 @@ func runErrWrap() {
 			lines[1] = strings.TrimRight(lines[1], " ")
 			eo, es, el := c.expected()
 			es = strings.TrimRight(es, " ")
-			if c.Outcome == "reterr" && lines[1] == es && lines[2] == el && lines[0] == strings.Replace(eo, "frame=true", "frame=false", 1) {
-				// the statement asks for a frame on the panic of expr! only; a bare error from expr? is not an alarm
-				res.V, res.Sig, res.Detail = "drift", "return-without-frame", c.text()+": "+lines[0]
+			if c.Outcome == "reterr" && lines[1] == es && lines[2] == el && lines[0] != eo && noFrameFields(lines[0]) == noFrameFields(eo) {
+				// the statement asks for a source frame on the panic of expr! only; a bare error from expr?, or a frame
+				// that names another line, is recorded but is not an alarm
+				sig := "return-frame-names-wrong-line"
+				if strings.Contains(lines[0], "frame=false") {
+					sig = "return-without-frame"
+				}
+				res.V, res.Sig, res.Detail = "drift", sig, c.text()+": "+lines[0]+" (documented: "+eo+")"
 			} else if cl := c.classify([]string{lines[0], lines[1], lines[2]}); cl != "" && !(lines[0] == eo && lines[1] == es && lines[2] == el) {
 				res.V, res.Sig = "viol", sigBase+cl
 				res.Detail = fmt.Sprintf("%s: observed [%s | %s | %s], documented [%s | %s | %s]", c.text(), lines[0], lines[1], lines[2], eo, es, el)
@@ -469,7 +626,7 @@ func runErrWrap() {
 			res.V, res.Sig, res.Detail = "viol", sigBase+c.valueClass()+":"+x.Kind, c.text()+": "+clip(x.Detail, 400)
 		case "go-build-error":
 			pos := c.Pos
-			if (pos == "closure" || pos == "method") && c.NV == 0 {
+			if pos == "lambda" || (pos == "closure" || pos == "method") && c.NV == 0 {
 				pos = "stmt"
 			} else if pos == "closure" || pos == "method" {
 				pos = "assign"
